@@ -204,14 +204,20 @@ bool kirsch_bounded_kfifo_queue<T, Policies...>::try_push(value_type value) {
         return true;
       }
     } else {
-      if (queue_full(head_old, tail_old)) {
-        if (segment_empty(head_old)) {
-          // increment head by k
-          marked_idx new_head((head_old.get() + _k) % _queue_size, head_old.mark() + 1);
-          _head.compare_exchange_strong(head_old, new_head, std::memory_order_relaxed);
-        } else if (head_old == _head.load(std::memory_order_relaxed)) {
-          // queue is full
-          return false;
+      if (((tail_old.get() + _k) % _queue_size) == head_old.get()) {
+        // The next segment is the head segment, so the tail must not be advanced unless the head moves
+        // on first. If the head has changed in the meantime we have to start over.
+        if (!segment_empty(head_old)) {
+          if (head_old == _head.load(std::memory_order_relaxed)) {
+            // queue is full
+            return false;
+          }
+          continue;
+        }
+        // increment head by k
+        marked_idx new_head((head_old.get() + _k) % _queue_size, head_old.mark() + 1);
+        if (!_head.compare_exchange_strong(head_old, new_head, std::memory_order_relaxed)) {
+          continue;
         }
       }
       // increment tail by k
